@@ -1,8 +1,383 @@
-//! stub — to be written
-use crate::core::{Acc, Ctx};
-use serde_json::Value;
-pub const RULE: &str = "";
-pub const ASSUMPTIONS: &[&str] = &[];
-pub fn bounds(_quick: bool) -> Value { Value::Null }
-pub fn run(_ctx: &Ctx, _acc: &mut Acc) {}
-pub fn replay(_v: &Value) -> Option<(bool, String)> { None }
+//! C04 — decoding arbitrary bytes never panics, hangs or allocates without bound (both build profiles).
+//! Shape G; three completely enumerated spaces: (a) fgen vectors over the malformed menus with valid checksums,
+//! (b) every single-byte substitution (with and without checksum repair) and every truncation of every corpus
+//! file, (c) every short byte string after a set of prefixes. Oracle: totality of every decoding entry point.
+use crate::core::{alloc_mark, alloc_peak_since, for_each_deviation, guarded, hex, unhex, Acc, Ctx};
+use crate::corpus::{damage_corpus, TestFile};
+use crate::gspace::{bad_knobs, make_spec, menus};
+use crate::readers::ChunkedSource;
+use flac_codec::byteorder::LittleEndian;
+use flac_codec::decode::{verify_reader, FlacByteReader, FlacChannelReader, FlacSampleReader, FlacStreamReader};
+use flac_codec::encode::{generate_seektable, SeekTableInterval};
+use flac_codec::metadata::BlockList;
+use flac_codec::stream::{Frame, FrameIterator};
+use serde_json::{json, Value};
+use std::io::{Read, Seek, SeekFrom};
+use vph::fgen;
+use vph::refdec;
+
+pub const RULE: &str = "(a) every fgen stream with one or two malformations from the malformed menu (illegal/reserved header and subframe codes, illegal partition orders, forced residuals, inconsistent STREAMINFO, …; all checksums valid) applied to frame 0 / the last frame of the plain stream and of every stream within 1 valid deviation; (b) for each damage-corpus file EVERY single-byte substitution (255 values × every position, metadata included) both raw and with CRC-8/CRC-16 of the affected frame recomputed, and EVERY truncation; thorough adds every 2-bit flip inside frame and subframe headers and every (truncation, substitution-in-the-last-16-bytes) pair; (c) EVERY byte string of length ≤2 (thorough ≤3) appended to each of {nothing, 'fLaC', 'fLaC'+valid STREAMINFO(last), 'fLaC'+STREAMINFO+frame sync, a valid header prefix}; each input is pushed through every decoding entry point: 3 readers (open + drain), their seekable variants + seek to {0,1,mid,last,end,end+1} + read, verify_reader, FlacStreamReader::read until error, FrameIterator, Frame::read / read_subset at every frame offset, generate_seektable, BlockList::read; oracle: returns, no panic in opt and chk, peak allocation ≤ 48 MiB + 16×len, ≤ 10^6 reads past end of data";
+pub const ASSUMPTIONS: &[&str] = &["'all byte strings' is cut down to the three enumerated spaces; coverage-guided raw fuzzing (sampling) is not used", "allocation bound constant covers the largest legitimate buffers (65535×8×4 B frame, byte queue, 33-bit side vector, 932067-point seek table)"];
+pub fn bounds(quick: bool) -> Value {
+    json!({"malformations": if quick { "singles and pairs × ≤1 valid deviation" } else { "singles and pairs × ≤1 valid deviation (+2-deviation bases for singles)" }, "corpus": if quick { 13 } else { 32 }, "raw_strings": if quick { "≤2 bytes" } else { "≤3 bytes" }})
+}
+
+const ALLOC_BASE: usize = 48 << 20;
+
+/// Run every decoding entry point on `bytes`; first failure as (clause, detail).
+pub fn exercise(bytes: &[u8], first_frame_hint: usize) -> Option<(String, String)> {
+    let mark = alloc_mark();
+    let mut fail: Option<(String, String)> = None;
+    let mut ep = |name: &str, f: &mut dyn FnMut()| {
+        if fail.is_some() {
+            return;
+        }
+        if let Err(p) = guarded(|| f()) {
+            fail = Some((format!("{name}|panic@{}", crate::core::panic_loc(&p)), format!("{name}: panic: {p}")));
+        }
+    };
+    let src = || ChunkedSource::new(bytes, vec![], 0);
+    ep("sample-reader", &mut || {
+        if let Ok(mut r) = FlacSampleReader::new(src()) {
+            let mut n = 0u64;
+            loop {
+                match r.fill_buf() {
+                    Ok([]) | Err(_) => break,
+                    Ok(b) => {
+                        let k = b.len();
+                        n += k as u64;
+                        r.consume(k);
+                    }
+                }
+                if n > 1 << 28 {
+                    panic!("decoder produced more than 2^28 samples from a tiny input");
+                }
+            }
+        }
+    });
+    ep("byte-reader", &mut || {
+        if let Ok(mut r) = FlacByteReader::endian(src(), LittleEndian) {
+            let mut buf = [0u8; 4096];
+            let mut n = 0u64;
+            while let Ok(k) = r.read(&mut buf) {
+                if k == 0 {
+                    break;
+                }
+                n += k as u64;
+                if n > 1 << 30 {
+                    panic!("decoder produced more than 2^30 bytes from a tiny input");
+                }
+            }
+        }
+    });
+    ep("channel-reader", &mut || {
+        if let Ok(mut r) = FlacChannelReader::new(src()) {
+            let mut n = 0u64;
+            loop {
+                let k = match r.fill_buf() {
+                    Ok(b) => b.first().map(|c| c.len()).unwrap_or(0),
+                    Err(_) => break,
+                };
+                if k == 0 {
+                    break;
+                }
+                r.consume(k);
+                n += k as u64;
+                if n > 1 << 28 {
+                    panic!("decoder produced more than 2^28 PCM frames from a tiny input");
+                }
+            }
+        }
+    });
+    ep("sample-iterator", &mut || {
+        if let Ok(r) = FlacSampleReader::new(src()) {
+            let mut n = 0u64;
+            for s in r {
+                if s.is_err() {
+                    break;
+                }
+                n += 1;
+                if n > 1 << 28 {
+                    panic!("iterator produced more than 2^28 samples");
+                }
+            }
+        }
+    });
+    // seekable variants: corrupt seek tables reach the seek path
+    ep("seekable-sample-reader", &mut || {
+        if let Ok(mut r) = FlacSampleReader::new_seekable(src()) {
+            use flac_codec::metadata::Metadata;
+            let total = r.total_samples().unwrap_or(40);
+            for t in [0, 1, total / 2, total.saturating_sub(1), total, total.saturating_add(1), u64::MAX] {
+                if r.seek(t).is_ok() {
+                    let mut b = [0i32; 40];
+                    let _ = r.read(&mut b);
+                }
+            }
+        }
+    });
+    ep("seekable-byte-reader", &mut || {
+        if let Ok(mut r) = FlacByteReader::endian(src(), LittleEndian).and_then(|_| FlacByteReader::<_, LittleEndian>::new_seekable(src())) {
+            for p in [SeekFrom::Start(0), SeekFrom::Start(1), SeekFrom::Start(77), SeekFrom::End(0), SeekFrom::End(-1), SeekFrom::Current(-3), SeekFrom::Current(1 << 40), SeekFrom::Start(u64::MAX), SeekFrom::End(i64::MIN), SeekFrom::Current(i64::MIN)] {
+                if r.seek(p).is_ok() {
+                    let mut b = [0u8; 64];
+                    let _ = r.read(&mut b);
+                }
+            }
+        }
+    });
+    ep("seekable-channel-reader", &mut || {
+        if let Ok(mut r) = FlacChannelReader::new_seekable(src()) {
+            for t in [0u64, 1, 17, 36, 37, 38, u64::MAX] {
+                if r.seek(t).is_ok() {
+                    let k = r.fill_buf().map(|b| b.first().map(|c| c.len()).unwrap_or(0)).unwrap_or(0);
+                    r.consume(k.min(3));
+                }
+            }
+        }
+    });
+    ep("verify_reader", &mut || {
+        let _ = verify_reader(src());
+    });
+    ep("frame-iterator", &mut || {
+        if let Ok(it) = FrameIterator::new(src()) {
+            for (i, f) in it.enumerate() {
+                match f {
+                    Ok((frame, _)) => {
+                        for s in &frame.subframes {
+                            match s {
+                                flac_codec::stream::SubframeWidth::Common(s) => {
+                                    let _ = s.decode().count();
+                                }
+                                flac_codec::stream::SubframeWidth::Wide(s) => {
+                                    let _ = s.decode().count();
+                                }
+                            }
+                        }
+                        let mut out = Vec::new();
+                        let _ = frame.write_subset(&mut out);
+                    }
+                    Err(_) => break,
+                }
+                if i > 100_000 {
+                    panic!("frame iterator does not terminate");
+                }
+            }
+        }
+    });
+    ep("generate_seektable", &mut || {
+        let _ = generate_seektable(src(), SeekTableInterval::Frames(std::num::NonZero::new(1).unwrap()));
+        let _ = generate_seektable(src(), SeekTableInterval::Seconds(std::num::NonZero::new(1).unwrap()));
+    });
+    ep("blocklist-read", &mut || {
+        let _ = BlockList::read(src());
+    });
+    // frame-level entry points on the audio region
+    let ff = first_frame_hint.min(bytes.len());
+    ep("stream-reader", &mut || {
+        let mut r = FlacStreamReader::new(std::io::BufReader::with_capacity(7, ChunkedSource::new(&bytes[ff..], vec![], 0)));
+        let mut n = 0;
+        loop {
+            match r.read() {
+                Ok(_) => {}
+                Err(flac_codec::Error::Io(e)) if e.kind() == std::io::ErrorKind::UnexpectedEof => break,
+                Err(_) => {}
+            }
+            n += 1;
+            if n > bytes.len() + 8 {
+                break;
+            }
+        }
+    });
+    ep("frame-read", &mut || {
+        if let Ok(info) = flac_codec::metadata::read_info(src()) {
+            for off in [ff, ff + 1, ff.saturating_sub(1)] {
+                if off <= bytes.len() {
+                    let _ = Frame::read(&mut ChunkedSource::new(&bytes[off..], vec![], 0), &info);
+                }
+            }
+        }
+        let _ = Frame::read_subset(&mut ChunkedSource::new(&bytes[ff..], vec![], 0));
+    });
+    if fail.is_none() {
+        let peak = alloc_peak_since(mark);
+        if peak > ALLOC_BASE + 16 * bytes.len() {
+            fail = Some(("allocation-bound".into(), format!("peak allocation {} MiB for a {}-byte input", peak >> 20, bytes.len())));
+        }
+    }
+    fail
+}
+
+fn record(acc: &mut Acc, ctx: &Ctx, class: &str, bytes: &[u8], ff: usize, origin: Value) {
+    acc.states += 1;
+    acc.executions += 1;
+    acc.transitions += 13;
+    match exercise(bytes, ff) {
+        None => acc.outcome(format!("{class}:total")),
+        Some((clause, detail)) => {
+            acc.outcome(format!("{class}:FAIL"));
+            acc.violation(format!("C04|{clause}"), format!("{detail} [{origin}] ({} profile)", ctx.profile), json!({"kind":"bytes","bytes":hex(bytes),"first_frame":ff,"origin":origin}));
+        }
+    }
+}
+
+/// recompute CRC-8 / CRC-16 of the frame containing `pos` using the ORIGINAL frame layout
+fn repair(a: &mut [u8], f: &TestFile, pos: usize, hdr_lens: &[usize]) {
+    if let Some(i) = f.frames.iter().position(|(o, l, _, _)| pos >= *o && pos < o + l) {
+        let (o, l, _, _) = f.frames[i];
+        let h = hdr_lens[i];
+        if pos < o + h - 1 {
+            a[o + h - 1] = refdec::crc8(&a[o..o + h - 1]);
+        }
+        if pos < o + l - 2 {
+            let c = refdec::crc16(&a[o..o + l - 2]);
+            a[o + l - 2] = (c >> 8) as u8;
+            a[o + l - 1] = c as u8;
+        }
+    }
+}
+
+pub fn run(ctx: &Ctx, acc: &mut Acc) {
+    // ---- (a) malformed grammar vectors with valid checksums
+    let m = menus();
+    let knobs = bad_knobs();
+    for_each_deviation(&m, 1, |k| {
+        let base = match make_spec(k) {
+            Ok(s) => s,
+            Err(_) => return,
+        };
+        let last = base.frames.len() - 1;
+        let mut apply_and_run = |acc: &mut Acc, idx: &[(usize, usize)]| {
+            let mut spec = base.clone();
+            for &(ki, fi) in idx {
+                (knobs[ki].apply)(&mut spec, fi);
+            }
+            if let Ok(b) = fgen::build(&spec) {
+                let names: Vec<&str> = idx.iter().map(|(ki, _)| knobs[*ki].name).collect();
+                record(acc, ctx, "malformed", &b.bytes, b.first_frame_offset, json!({"vector":k,"malformations":names,"frames":idx.iter().map(|x| x.1).collect::<Vec<_>>()}));
+            } else {
+                acc.dim("unbuildable", 1);
+            }
+        };
+        for a in 0..knobs.len() {
+            for fa in [0, last] {
+                if ctx.mine() {
+                    apply_and_run(acc, &[(a, fa)]);
+                }
+                // pairs of malformations only on the plain stream and its single deviations of the first 3 axes (cost)
+                if k.iter().skip(3).all(|v| *v == 0) {
+                    for b in a + 1..knobs.len() {
+                        if ctx.mine() {
+                            apply_and_run(acc, &[(a, fa), (b, last)]);
+                        }
+                    }
+                }
+            }
+        }
+    });
+    // ---- (b) byte substitutions / truncations of corpus files
+    for f in damage_corpus(ctx.quick) {
+        let hdr_lens: Vec<usize> = {
+            let st = refdec::decode(&f.bytes).expect("corpus");
+            st.frames.iter().map(|x| x.header_len).collect()
+        };
+        for pos in 0..f.bytes.len() {
+            for v in 0..=255u8 {
+                if v == f.bytes[pos] {
+                    continue;
+                }
+                for rep in [false, true] {
+                    if rep && pos < f.first_frame {
+                        continue;
+                    }
+                    if !ctx.mine() {
+                        continue;
+                    }
+                    let mut a = f.bytes.clone();
+                    a[pos] = v;
+                    if rep {
+                        repair(&mut a, &f, pos, &hdr_lens);
+                    }
+                    record(acc, ctx, if rep { "subst-repaired" } else { "subst-raw" }, &a, f.first_frame, json!({"file":f.desc,"pos":pos,"value":v,"repaired":rep}));
+                }
+            }
+        }
+        for len in 0..f.bytes.len() {
+            if ctx.mine() {
+                record(acc, ctx, "truncated", &f.bytes[..len], f.first_frame.min(len), json!({"file":f.desc,"cut":len}));
+            }
+            if ctx.thorough() {
+                // (truncation, substitution near the new end) pairs
+                for back in 1..=16usize.min(len) {
+                    for v in [0u8, 0xFF, 0x80, 0x01] {
+                        if !ctx.mine() {
+                            continue;
+                        }
+                        let mut a = f.bytes[..len].to_vec();
+                        if a[len - back] == v {
+                            continue;
+                        }
+                        a[len - back] = v;
+                        record(acc, ctx, "truncated+subst", &a, f.first_frame.min(len), json!({"file":f.desc,"cut":len,"back":back,"value":v}));
+                    }
+                }
+            }
+        }
+        if ctx.thorough() {
+            // every 2-bit flip inside each frame's header and first subframe header bytes, checksum-repaired
+            for (i, (o, _l, _, _)) in f.frames.iter().enumerate() {
+                let span = (hdr_lens[i] + 3) * 8;
+                for b1 in 0..span {
+                    for b2 in b1 + 1..span {
+                        if !ctx.mine() {
+                            continue;
+                        }
+                        let mut a = f.bytes.clone();
+                        a[o + b1 / 8] ^= 0x80 >> (b1 % 8);
+                        a[o + b2 / 8] ^= 0x80 >> (b2 % 8);
+                        repair(&mut a, &f, o + b1 / 8, &hdr_lens);
+                        record(acc, ctx, "2bit-header-repaired", &a, f.first_frame, json!({"file":f.desc,"frame":i,"bits":[b1,b2]}));
+                    }
+                }
+            }
+        }
+    }
+    // ---- (c) all short byte strings after each prefix
+    let si: Vec<u8> = {
+        let f = &damage_corpus(true)[1];
+        f.bytes[..4 + 4 + 34].to_vec()
+    };
+    let mut si_last = si.clone();
+    si_last[4] |= 0x80;
+    let mut with_sync = si_last.clone();
+    with_sync.extend([0xFF, 0xF8]);
+    let mut hdr = si_last.clone();
+    hdr.extend([0xFF, 0xF8, 0x69, 0x08, 0x00]); // sync, bs code 6 (8-bit), rate 44.1k, mono, 16-bit, number 0
+    let prefixes: Vec<(&str, Vec<u8>)> = vec![("empty", vec![]), ("magic", b"fLaC".to_vec()), ("magic+streaminfo", si_last.clone()), ("magic+streaminfo(not last)", si), ("…+sync", with_sync), ("…+header-prefix", hdr)];
+    let maxl = if ctx.quick { 2 } else { 3 };
+    for (pname, p) in &prefixes {
+        for l in 0..=maxl {
+            let n = 256usize.pow(l as u32);
+            for x in 0..n {
+                if !ctx.mine() {
+                    continue;
+                }
+                let mut a = p.clone();
+                for j in (0..l).rev() {
+                    a.push(((x >> (8 * j)) & 0xFF) as u8);
+                }
+                record(acc, ctx, "raw-suffix", &a, p.len().min(42), json!({"prefix":pname,"suffix_len":l,"suffix":x}));
+            }
+        }
+    }
+    acc.sample(json!({"kind":"bytes","origin":{"file":"enc-ch1-bps16-seek0","pos":60,"value":255,"repaired":true}}));
+}
+
+pub fn replay(v: &Value) -> Option<(bool, String)> {
+    if v["kind"] != "bytes" {
+        return None;
+    }
+    let bytes = unhex(v["bytes"].as_str()?);
+    let r = exercise(&bytes, v["first_frame"].as_u64()? as usize);
+    Some((r.is_some(), format!("{r:?}")))
+}
